@@ -167,7 +167,9 @@ class C14(Property):
                     # a request type DECLARED now as a subclass of one of the types: handlers are looked up by exact type, so
                     # nothing serves it (no runtime holds it, no default was registered for it)
                     ops.append({"op": "run_subtype", "t": rng.randrange(NTYPES)})
-                elif y < 0.22:
+                elif y < 0.15:
+                    ops.append({"op": "fork_probe"})
+                elif y < 0.25:
                     # a worker inherits from a thread that has FINISHED (it had inherited from this thread here and now)
                     ops.append({"op": "spawn_from_finished", "between": rng.choice([None, None, "block"])})
                 else:
@@ -493,6 +495,38 @@ class C14(Property):
                         if differs(seen.get(t), want):
                             res.violate("inherit-from-finished-thread-lost-its-handlers", where=where, type=t, got=seen.get(t),
                                         want=sorted(want) if isinstance(want, set) else want, stack=list(stack))
+                            return
+                elif kind == "fork_probe":
+                    # os.fork() inside the blocks (a multiprocessing fork worker started here): the child is this thread, in
+                    # these blocks, and is served like it
+                    import json as _json
+                    import os as _os
+
+                    touch()
+                    rfd, wfd = _os.pipe()
+                    pid = _os.fork()
+                    if pid == 0:
+                        try:
+                            _os.close(rfd)
+                            _os.write(wfd, _json.dumps([observe_raw(t) for t in range(NTYPES)]).encode())
+                        finally:
+                            _os._exit(0)
+                    _os.close(wfd)
+                    data = b""
+                    while True:
+                        chunk = _os.read(rfd, 65536)
+                        if not chunk:
+                            break
+                        data += chunk
+                    _os.close(rfd)
+                    _os.waitpid(pid, 0)
+                    seen_in_child = _json.loads(data.decode() or "[]")
+                    res.bump("forks_inside_blocks")
+                    for t, got in enumerate(seen_in_child):
+                        want = expected(t)
+                        log.add("fork", where, t, got)
+                        if differs(got, want):
+                            res.violate("forked-child-served-differently", where=where, type=t, got=got, want=sorted(want) if isinstance(want, set) else want, stack=list(stack))
                             return
                 elif kind == "run":
                     got = observe(op["t"])
